@@ -25,6 +25,7 @@ pub fn check() -> Check {
             rule: "one recorded plan = 8-40 generated ops (set/del/get with entries below and above the 8 KiB write buffer, merges, reopen cycles; sync=always in a third of the plans so that fsync calls exist). The plan is run once fault-free to count its fallible calls on the store directory, then rerun once per call index with exactly that write/create/fsync/unlink failing (ENOSPC or EIO). One evaluation = one rerun. Oracle: the operation in whose span the shim injected the failure must return an error; every other operation must succeed and agree with the map model (the faulted operation's key may read as before or after, also differently across a restart); a failed open must succeed when retried; after the plan the store is closed, reopened (must succeed), every key re-read, and a short continuation must work. Exhaustive over call positions per plan; plans are sampled. Non-trivial/distinct = distinct (plan, position actually hit); the (operation, call kind, file kind) sites hit are listed as kinds.",
             assumptions: vec![
                 "faults are injected by the shim at the libc boundary: the call returns -1/errno and has no effect",
+                "in half of the plans the shim completes writes of two or more bytes only partly (a legal short count, seeded: 40% or 100% of such writes), so that std's write_all comes back with the rest; a fault position on such a retry is the no-space case in which a part of the entry has reached the file (sites named write-rest)",
                 "merge copies in index iteration order, which differs between runs, so position i of a rerun may hit a different merge write than in the counting run; each rerun records the site it really hit",
             ],
             death_is_violation: true,
@@ -65,8 +66,9 @@ fn op_kind(op: &POp) -> &'static str {
 
 /// Run `plan` with the `nth` fallible call failing. Returns the site hit (None if the fault never
 /// fired) and the first violation.
-fn run_with_fault(dir: &Path, plan: &Plan, nth: i64, errno: i32) -> (Option<String>, Option<Verdict>, u64) {
+fn run_with_fault(dir: &Path, plan: &Plan, nth: i64, errno: i32, short: (u32, u64)) -> (Option<String>, Option<Verdict>, u64) {
     shim::log_reset();
+    shim::short_writes(short.0, short.1);
     shim::record_data(false);
     shim::watch(Some(dir));
     if nth >= 0 {
@@ -208,6 +210,7 @@ fn run_with_fault(dir: &Path, plan: &Plan, nth: i64, errno: i32) -> (Option<Stri
     }
     // the fault window is the plan itself: what follows is the oracle's own reading
     shim::fail_off();
+    shim::short_writes(0, 0);
     shim::mark(M_NOTE, 1, 0);
     // read everything in the running process, then after a restart, then prove it is usable
     let read_all = |st: &Store, model: &HashMap<Vec<u8>, Vec<Option<Vec<u8>>>>, when: &str, verdict: &mut Option<Verdict>| {
@@ -284,9 +287,15 @@ fn run_with_fault(dir: &Path, plan: &Plan, nth: i64, errno: i32) -> (Option<Stri
             }
         }
     }
-    if let Some(inj) = events.iter().find(|e| e.injected()) {
+    if let Some(ix) = events.iter().position(|e| e.injected()) {
+        let inj = &events[ix];
+        // a write that fails right after a short write to the same file is the retry for the rest of
+        // one buffer: a part of the entry is in the file already
+        let after_short = matches!(inj.kind, K_WRITE | K_PWRITE)
+            && events[..ix].iter().rev().take_while(|e| !e.is_mark(M_OP_BEGIN)).find(|e| matches!(e.kind, K_WRITE | K_PWRITE) && e.name == inj.name).map(|e| e.result >= 0 && (e.result as u64) < e.b).unwrap_or(false);
         let call = match inj.kind {
             K_OPEN => "create",
+            K_WRITE | K_PWRITE if after_short => "write-rest",
             K_WRITE | K_PWRITE => "write",
             K_FSYNC | K_FDATASYNC => "fsync",
             K_UNLINK => "unlink",
@@ -316,7 +325,14 @@ fn plan_case(ctx: &Ctx, case: u64, out: &mut Out) {
     let dir = fresh_dir(&ctx.scratch, &format!("c{}", case));
     // counting run
     ctx.breadcrumb(case, "counting run");
-    let (_, v0, calls) = run_with_fault(&dir, &plan, -1, 0);
+    // a quarter of the plans each: writes are sometimes / always completed partially first
+    let short = (match case % 4 { 1 => 400_000, 3 => 1_000_000, _ => 0 }, Rng::derive(ctx.seed, 0xC20_5000_0000 ^ case).next_u64() | 1);
+    let shorts0 = shim::shorts_done();
+    let (_, v0, calls) = run_with_fault(&dir, &plan, -1, 0, short);
+    if short.0 > 0 {
+        out.count("plans_with_short_writes", 1);
+        out.count("short_writes_in_counting_runs", shim::shorts_done() - shorts0);
+    }
     out.count("plans", 1);
     if v0.is_some() {
         // failing without any fault is not this property's subject
@@ -336,12 +352,15 @@ fn plan_case(ctx: &Ctx, case: u64, out: &mut Out) {
         let _ = std::fs::remove_dir_all(&dir);
         std::fs::create_dir_all(&dir).unwrap();
         ctx.breadcrumb(case, &format!("fault position {}", nth));
-        let (site, verdict, _) = run_with_fault(&dir, &plan, nth, errno);
+        let (site, verdict, _) = run_with_fault(&dir, &plan, nth, errno, short);
         out.evaluations += 1;
         match &site {
             Some(s) => {
                 out.class_counter(&format!("site:{}", s));
                 out.class(format!("{:016x}-{}", ph, nth));
+                if s.contains("write-rest") {
+                    out.count("faults_after_a_part_of_the_entry_was_written", 1);
+                }
                 if s.starts_with("set-large") {
                     out.count("faults_on_entries_above_write_buffer", 1);
                 }
@@ -353,7 +372,7 @@ fn plan_case(ctx: &Ctx, case: u64, out: &mut Out) {
             out.violation(
                 &format!("{}|{}", v.sig, s),
                 format!("case {} fault position {} ({} at {}): {}", case, nth, if errno == libc::ENOSPC { "ENOSPC" } else { "EIO" }, s, v.desc),
-                ctx.replay(case, json!({"fault_position": nth, "errno": errno, "site": s, "plan": plan_json(&plan)})),
+                ctx.replay(case, json!({"fault_position": nth, "errno": errno, "site": s, "short_writes_ppm": short.0, "plan": plan_json(&plan)})),
             );
         }
         if out.samples.len() < 3 && (nth % 41 == 7 || out.samples.is_empty()) {
